@@ -379,6 +379,13 @@ CASES["regress/KF-C01-20.json"] = exec_case("C01", "gateway-errors", 'query($n: 
 CASES["regress/KF-C01-20b.json"] = exec_case("C01", "gateway-errors", 'query($n: Int = 4) { a: count(min: $n) b: count(min: 1, max: $n) getHumans { phone } }', {})
 CASES["regress/KF-C01-23.json"] = exec_case("C01", "data-mismatch", '{ node(id: "Human_1") { ... on Human { __typename name } } }')
 CASES["regress/KF-C01-23b.json"] = exec_case("C01", "data-mismatch", '{ node(id: "Human_1") { ... on Human { t: __typename phone name } } }')
+def _nodefield_world():
+    w = json.loads(json.dumps(world(extra1="extend type Human {\n  node: Human\n  edges: [Human!]\n}\n", extraU="extend type Human {\n  node: Human\n  edges: [Human!]\n}\n")))
+    w["store"]["entities"]["Human_1"]["fields"].update({"node": "Human_2", "edges": ["Human_2", "Human_1"]})
+    w["store"]["entities"]["Human_2"]["fields"].update({"node": "Human_1", "edges": []})
+    return w
+CASES["regress/KF-C01-32.json"] = exec_case("C01", "process-death", '{ getHuman { node { best { name } } } }', w=_nodefield_world())
+CASES["regress/KF-C01-32b.json"] = exec_case("C01", "process-death", '{ getHumans { name x: node { nick } node { best { phone } friends { name } } } }', w=_nodefield_world())
 CASES["regress/KF-C01-27.json"] = exec_case("C01", "gateway-errors", '{ __typename getHumans { name } }')
 CASES["regress/KF-C01-27b.json"] = exec_case("C01", "gateway-errors", '{ t: __typename }')
 CASES["regress/KF-C01-27c.json"] = exec_case("C01", "data-mismatch", '{ __schema { queryType { name } } getHumans { name phone } m: __type(name: "Human") { kind name } }')
